@@ -48,7 +48,9 @@ def check(ctx):
 
 def r14_1(ctx, g):
     repo = ctx.repo
-    pe = repo.func("gaftools.gfa", "GFA.path_exists", "R14.1")
+    from ..core import detuple
+
+    pe = detuple(repo, repo.func("gaftools.gfa", "GFA.path_exists", "R14.1"))
     ctx.analysed_func(pe)
     cases = None
     for st in walk_own(pe.node):
@@ -92,6 +94,9 @@ def r14_1(ctx, g):
     # every consecutive pair is checked
     rng = [l for l in pe.node.body if isinstance(l, ast.For) and isinstance(l.iter, ast.Call) and norm(l.iter.func) == "range"]
     ok_rng = bool(rng) and [norm(a) for a in rng[0].iter.args] == ["1", "len(ordered_path)".replace("ordered_path", pe.params[1])]
+    zips = [l for l in pe.node.body if isinstance(l, ast.For) and isinstance(l.iter, ast.Call) and norm(l.iter.func) == "zip" and [norm(a) for a in l.iter.args] == [pe.params[1], f"{pe.params[1]}[1:]"]]
+    if zips and not rng:
+        ok_rng, rng = True, zips  # for a, b in zip(path, path[1:]): all consecutive pairs
     ctx.check(ok_rng, "R14.1", pe.where(), "every consecutive pair of steps is checked (range(1, len(path)))", key_of(pe, "pair-range"))
     # per pair: the pair is rejected unless a matching link is found *for this pair*
     if rng:
@@ -108,7 +113,7 @@ def r14_1(ctx, g):
                 # or the acceptance must come from the comparison itself
                 flags_true = [e for e in p.events if e.kind == "stmt" and isinstance(e.node, ast.Assign) and const_value(e.node.value, 0) is True]
                 flags_false = [e for e in p.events if e.kind == "stmt" and isinstance(e.node, ast.Assign) and const_value(e.node.value, 1) is False]
-                matched = any(e.kind == "test" and e.pol and "edge[0]" in norm(e.node) for e in p.events)
+                matched = any(e.kind == "test" and canon_test(e.node, e.pol)[1] and "[0]" in norm(e.node) and "[1]" in norm(e.node) and "==" in norm(e.node) for e in p.events)
                 if not matched:
                     badp = (p, "a pair of steps is accepted on a path on which no link of this pair matched")
                     break
@@ -169,6 +174,17 @@ def r14_2_3(ctx, g):
         raise AnalysisError("R14.2", ep.where(), "no concatenation loop")
     loop = loops[-1]
     n = norm(loop.target)
+    # do the steps iterated come from a tokeniser whose every match starts with '>' or '<'?
+    from .. import relang
+    from ..core import regex_call
+
+    two_signs_only = False
+    for st in ep.node.body:
+        if isinstance(st, ast.Assign) and norm(st.targets[0]) == norm(loop.iter):
+            rc_ = regex_call(ep.module, st.value) if isinstance(st.value, ast.Call) else None
+            if rc_ is not None and rc_[0] == "findall":
+                items = relang.flatten(relang.parse(rc_[1]))
+                two_signs_only = bool(items) and items[0][0] == "char" and set(items[0][1]) == {ord(">"), ord("<")}
     paths = enum_paths(loop.body, rule="R14.2", where=ep.where(loop))
     bad = None
     seen = set()
@@ -184,6 +200,14 @@ def r14_2_3(ctx, g):
             bad = (p, f"{len(apps)} pieces appended for one step")
             break
         a = norm(apps[0].args[0])
+        not_fwd = any(canon_test(t, pol) in ((f"{n}.startswith('>')", False), (f"{n}[0] == '>'", False)) for t, pol in p.tests())
+        not_rev = any(canon_test(t, pol) in ((f"{n}.startswith('<')", False), (f"{n}[0] == '<'", False)) for t, pol in p.tests())
+        if two_signs_only and not fwd and not rev:
+            # every step starts with '>' or '<' (the tokeniser's pattern): ruling one out establishes the other
+            if not_fwd and not not_rev:
+                rev = True
+            elif not_rev and not not_fwd:
+                fwd = True
         if fwd and not rev:
             seen.add(">")
             if a != f"self.nodes[{n}[1:]].seq" and a != f"self[{n}[1:]].seq":
